@@ -84,6 +84,17 @@ def run_seed(mod, seed, tier, scenario=None, trace=None, keep=False):
         for k in scenario['kinds']:
             key = 'history:%s' % k
             res['faults'][key] = res['faults'].get(key, 0) + 1
+    if os.environ.get('VERIF_EVENT_DUMP'):
+        # diagnosis of divergent digests: exactly what the digest is made of
+        try:
+            with open('%s/%s-%s-%d.ev' % (os.environ['VERIF_EVENT_DUMP'],
+                                          mod.PROP, seed, os.getpid()),
+                      'w') as f:
+                for ev in res['sim'].events:
+                    f.write(repr(sorted((k, v) for k, v in ev.items()
+                                        if k != 'obj')) + '\n')
+        except Exception:
+            pass
     out = {'seed'     : seed,
            'status'   : res['status'],
            'sigs'     : sorted({signature(v) for v in res['violations']}),
